@@ -73,8 +73,9 @@ def rule_emptied_lists_filtered(ck, repo, R):
     c = repo.cls(f'{KEK}:Kekule')
     f = c.method('__prepare_rings') if c else None
     ck.require(f is not None, 'Kekule.__prepare_rings not found')
-    removed = any(isinstance(n, ast.Call) and isinstance(n.func, ast.Attribute) and n.func.attr in ('remove', 'pop', 'discard') and src(n.func.value).startswith('double_bonded[')
-                  for n in ast.walk(f.node))
+    names = {'double_bonded'} | {n.targets[0].id for n in ast.walk(f.node) if isinstance(n, ast.Assign) and isinstance(n.targets[0], ast.Name) and src(n.value) == 'double_bonded'}
+    removed = any(isinstance(n, ast.Call) and isinstance(n.func, ast.Attribute) and n.func.attr in ('remove', 'pop', 'discard') and isinstance(n.func.value, ast.Subscript)
+                  and src(n.func.value.value) in names for n in ast.walk(f.node))
     ck.require(removed, '__prepare_rings: the repair loop no longer removes partners from double_bonded (rule outdated)')
     defs = [n for n in ast.walk(f.node) if isinstance(n, ast.Assign) and src(n.targets[0]) == 'double_bonded' and 'double_bonded' in src(n.value)]
     ck.require(len(defs) == 1, f'__prepare_rings: derivation of the double-bonded atom set not recognised ({len(defs)})')
@@ -100,10 +101,29 @@ def rule_scope_abandons_permutation(ck, repo, R):
                'of the for-else that collects one matcher per component); skipping just that component would combine fewer matchers than the pattern has components')
     f = repo.func(f'{ISO}:Isomorphism._get_mapping')
     ck.require(f is not None, 'Isomorphism._get_mapping not found')
-    loops = [n for n in ast.walk(f.node) if isinstance(n, ast.For) and n.orelse and 'zip(' in src(n.iter) and any('append' in src(x) for x in n.body)]
+    loops = [n for n in ast.walk(f.node) if isinstance(n, ast.For) and 'zip(' in src(n.iter) and any('append' in src(x) for x in n.body)]
     ck.require(len(loops) == 1, f'_get_mapping: collecting loop not recognised ({len(loops)})')
     l = loops[0]
     parents = enclosing_map(f.node)
+    if not l.orelse:
+        # flag form of the for-else: every break is preceded by `flag = True` and the loop is followed by `if flag: continue`
+        blk = None
+        for field in ('body', 'orelse'):
+            b = getattr(parents[l], field, None)
+            if isinstance(b, list) and l in b:
+                blk = b
+        nxt = blk[blk.index(l) + 1] if blk is not None and blk.index(l) + 1 < len(blk) else None
+        flag = src(nxt.test) if isinstance(nxt, ast.If) and isinstance(nxt.test, ast.Name) and len(nxt.body) == 1 and isinstance(nxt.body[0], ast.Continue) else None
+        ck.require(flag is not None, '_get_mapping: collecting loop has neither an else branch nor a flag test after it')
+        for br in [x for x in ast.walk(l) if isinstance(x, ast.Break)]:
+            pb = None
+            for field in ('body', 'orelse'):
+                b = getattr(parents[br], field, None)
+                if isinstance(b, list) and br in b:
+                    pb = b
+            i = pb.index(br)
+            ck.decide(i > 0 and src(pb[i - 1]) == f'{flag} = True', R, f'flag-before-break:{br.lineno}', None,
+                      f'_get_mapping: the loop is left by break without setting `{flag}`: the permutation is not abandoned', file=f.file, line=br.lineno, func=f.qualname)
     app = [x for x in ast.walk(l) if isinstance(x, ast.Call) and isinstance(x.func, ast.Attribute) and x.func.attr == 'append' and x in [c for b in l.body for c in ast.walk(b)]]
     ck.require(app, '_get_mapping: matcher append not found')
     # every path through the body either appends or breaks
@@ -335,6 +355,8 @@ def rule_positional_radical_list(ck, repo, R):
               f'^1: index is shifted', file=f.file, line=ext[0].lineno, func=f.qualname, construct=src(ext[0]))
     # the extension covers every written atom
     arg = ext[0].value.args[0]
+    if src(ext[0].value.func) == 'radicals.append':  # one append per atom inside a loop: the reach conditions above already cover a conditional skip
+        return
     ck.decide(isinstance(arg, (ast.GeneratorExp, ast.ListComp)) and not arg.generators[0].ifs, R, 'every-atom', src(arg),
               f'__format__: the radical list is extended by `{src(arg)}`, which is not one entry per written atom', file=f.file, line=ext[0].lineno, func=f.qualname)
 
